@@ -356,8 +356,9 @@ class RInt:
     def check_nonzero(self):
         return RBool(1 if self.v != 0 else 0)
 
-    def check_positive(self):
-        need_signed_bits(self.v)
+    def check_positive(self, bits=None):
+        if self.v.bit_length() > (ctx.bl if bits is None else bits):
+            flag("%d does not fit %s bits" % (self.v, ctx.bl if bits is None else bits))
         return RBool(1 if self.v >= 0 else 0)
 
     # --- assertions -----------------------------------------------------------
